@@ -5,10 +5,10 @@ cd /verif/checker
 rm -rf refsrc && mkdir -p refsrc
 (cd /repo && git ls-files '*.go' | grep -v _test.go) | while read f; do mkdir -p refsrc/$(dirname $f); git -C /repo show HEAD:$f > refsrc/$f.txt; done
 : > inventory.txt.new
-GOFLAGS=-mod=vendor GOPROXY=off GOSUMDB=off GOTOOLCHAIN=local GOWORK=off go build -o /verif/bin/wtcheck .
+GOFLAGS=-mod=vendor GOPROXY=off GOSUMDB=off GOTOOLCHAIN=local GOWORK=off go build -o /verif/bin/wtcheck.new . && mv /verif/bin/wtcheck.new /verif/bin/wtcheck
 d=$(mktemp -d /tmp/wtinv.XXXXXX); trap 'rm -rf "$d"' EXIT
 git -C /repo archive HEAD | tar -x -C "$d"
 /verif/bin/wtcheck -gen-inventory -repo "$d" > inventory.txt.new
 mv inventory.txt.new inventory.txt
-GOFLAGS=-mod=vendor GOPROXY=off GOSUMDB=off GOTOOLCHAIN=local GOWORK=off go build -o /verif/bin/wtcheck .
+GOFLAGS=-mod=vendor GOPROXY=off GOSUMDB=off GOTOOLCHAIN=local GOWORK=off go build -o /verif/bin/wtcheck.new . && mv /verif/bin/wtcheck.new /verif/bin/wtcheck
 echo "inventory: $(grep -vc '^\(field\|const\):' inventory.txt) functions, $(grep -c '^field:' inventory.txt) fields, $(grep -c '^const:' inventory.txt) constants; $(find refsrc -type f | wc -l) reference files"
